@@ -365,16 +365,16 @@ def rule_r3(repo, tier):
                     [x.describe() for x in res]))
     # decoder: consumes exactly the declared extent
     fi = repo.method('Decoder', 'process_section')
-    for k in (0, 5, 8, 19):
+    for edition, k in [(e, k) for e in (2, 3, 4) for k in (0, 5, 8, 19)]:
         content_bits = 32 + k
         for declared in [0, 1] + list(range(max(2, (content_bits + 7) // 8 - 2), (content_bits + 7) // 8 + 4)):
             it = SecInterp(repo, 'Decoder', k)
 
             def mk():
                 sec = SectionModel([param('section_length', 24), param('reserved', 8), param('template_data', 0, 'template_data')], {'index': 4})
-                return {'self': Obj('Decoder', {}), 'bufr_message': message(4), 'bit_reader': PosIO(104, [declared, 0]), 'section': sec}
+                return {'self': Obj('Decoder', {}), 'bufr_message': message(edition), 'bit_reader': PosIO(104, [declared, 0]), 'section': sec}
             res = it.run_function(fi, mk, self_class='Decoder')
-            rr.instance('decoder: declared %d octets, content %d bits' % (declared, content_bits))
+            rr.instance('decoder: declared %d octets, content %d bits, edition %d' % (declared, content_bits, edition))
             key = 'Decoder.process_section:declared'
             if len(res) != 1:
                 rr.fail(key + '-paths', fi.where, '%s' % [r.describe() for r in res])
@@ -386,18 +386,19 @@ def rule_r3(repo, tier):
                         content_bits, declared, r.describe()), witness={'declared': declared, 'content_bits': content_bits})
             else:
                 if not r.ok or r.value != declared * 8:
-                    rr.fail(key + ':extent', fi.where, 'a section declared %d octets is consumed as %s bits (outcome %s), expected exactly %d' % (
-                        declared, r.value, r.describe(), declared * 8), witness={'declared': declared, 'content_bits': content_bits})
+                    rr.fail(key + ':extent', fi.where, 'edition %d: a section declared %d octets is consumed as %s bits (outcome %s), expected exactly %d (the decoder '
+                            'believes the declared length; even octet counts are an obligation of the encoder)' % (
+                        edition, declared, r.value, r.describe(), declared * 8), witness={'declared': declared, 'content_bits': content_bits, 'edition': edition})
     # a section whose last parameter takes "the rest of the section" (section 2: local bits): a declared length shorter than the
     # fixed part leaves a negative rest
-    for declared in (0, 1, 2, 3, 4, 5, 9):
+    for edition, declared in [(e, d) for e in (2, 3, 4) for d in (0, 1, 2, 3, 4, 5, 9)]:
         it = SecInterp(repo, 'Decoder', 0)
 
         def mk2():
             sec = SectionModel([param('section_length', 24), param('reserved_bits', 8, 'bin'), param('local_bits', 0, 'bin')], {'index': 2})
-            return {'self': Obj('Decoder', {}), 'bufr_message': message(4), 'bit_reader': PosIO(104, [declared, '00000000']), 'section': sec}
+            return {'self': Obj('Decoder', {}), 'bufr_message': message(edition), 'bit_reader': PosIO(104, [declared, '00000000']), 'section': sec}
         res = it.run_function(fi, mk2, self_class='Decoder')
-        rr.instance('decoder: section with a rest-of-section parameter declared %d octets (fixed part 4)' % declared)
+        rr.instance('decoder: section with a rest-of-section parameter declared %d octets (fixed part 4), edition %d' % (declared, edition))
         for r in res:
             if declared < 4:
                 if r.ok or not it_is_lib_error(repo, r.exc.cls):
@@ -405,8 +406,8 @@ def rule_r3(repo, tier):
                             'parameter that takes the rest of the section, is not reported with PyBufrKitError (outcome %s): the negative rest is handed to the bit '
                             'reader' % (declared, r.describe()), witness={'declared': declared})
             elif not r.ok or r.value != declared * 8:
-                rr.fail('Decoder.process_section:declared:extent', fi.where, 'a section declared %d octets with a rest-of-section parameter is consumed as %s bits (%s)' % (
-                    declared, r.value, r.describe()), witness={'declared': declared})
+                rr.fail('Decoder.process_section:declared:extent', fi.where, 'a section declared %d octets with a rest-of-section parameter is consumed as %s bits (%s), edition %d' % (
+                    declared, r.value, r.describe(), edition), witness={'declared': declared, 'edition': edition})
     # (the three outcomes of the total length in Encoder.process - computed / kept / refused - are decided by the fold of R1)
     rr.require_floor(30)
     return rr
@@ -614,6 +615,8 @@ def run(repo, check):
     share(check, repo, c19.rule_r7, 'C04.R7', 'a length field is overwritten in place without moving anything else (shared with C19.R7)')
     share(check, repo, c11.rule_r1, 'C04.R8', 'the scanner reports the span the decoder walked, not the declared total, when the data are decoded (shared with C11.R1)',
           keep=lambda f: ':full:' in f.key and f.key.endswith(':yields'), args=(check.tier,))
+    share(check, repo, c19.rule_r2, 'C04.R11', 'the in-place patch of a length field sets exactly the octets of the field to the new value, whatever was declared there before '
+          '(shared with C19.R2)')
     from sa.rules import c17 as _c17
     from sa.rules.common import share as _sh
     _sh(check, repo, _c17.rule_r3, 'C04.R9', 'decoder options never rewrite, and never cache across editions, the section layouts that frame later messages (shared with C17.R3)')
